@@ -59,6 +59,10 @@ def run(F, rep, tier):
     contradiction_info(F, rep)
     # "no read of an uninitialised variable": a global is initialised before anything that mentions it runs - every mention
     # is a dependency edge (the C11 instances)
+    # a requirement on a type that is not known yet is kept until it is (unary minus on an element of a tuple included), and joining
+    # two nodes keeps the requirements of both - or the arithmetic on a non-number they stand for is never refused (shared with C03)
+    core.borrow(rep, lambda F_, r_: c03.accept(F_, r_, "ACCEPT"), lambda o: o["rule"] == "DEFER-RECORDED", F)
+    core.borrow(rep, c03.unification_core, lambda o: o["rule"] == "UNIFY-CORE", F)
     import c11
     c11.dependency_visit(F, rep)
     # .. and every edge is followed when the globals are ordered: `x :: x + 1` reads x before it has a value unless the edge to
